@@ -19,6 +19,7 @@ shows M doing exactly that (3 increments, cell = 2), as the real code does.  `wr
 `rebinding_reads_current` need no such assumption.
 -/
 import PromVerif.Lemmas.MultiprocessPresence
+import PromVerif.Lemmas.MultiprocessFresh
 
 namespace PromVerif.Props.C09
 open PromVerif.Py PromVerif.Generated.Multiprocess
@@ -157,36 +158,37 @@ theorem dead_touches_own_identity_only (q pre p : Str) (hq : '_' ∉ q) (hp : '_
   | false => rfl
   | true => exact absurd (isLiveFileOf_fileName q pre p hq hp h) hne
 
-/-- **world_cell** (`_partial`: `hu` = at every point the acting worker updates only through the youngest value object on a (prefix, key)).
+/-- **world_cell** (`_partial`: `hu` = every INCREMENT of the world history goes through a FRESH value object (`wFresh`): one that nothing
+    else has overwritten since it last read or wrote its entry — all objects are fresh after an identity change and after
+    their construction; an update through one object makes the others on its key stale until the next identity change).
     After ANY world history from an empty directory — any number of worker generations, identity changes, deaths and
     pid reuses — identity `p`'s entry of series `(pre, k)` is the fold over the world log of: the updates issued under
     `p` by whichever generation (increments add, sets replace), and the deaths of `p`, which reset the entry exactly
     when the file is a live-gauge file.  Hence: counters of a dead identity are still there; its live gauges are gone;
     a new worker that reuses the pid continues every non-live entry from what the file holds. -/
 theorem world_cell_partial (vo : VOps V) (p0 : Str) (hp0 : '_' ∉ p0) (evs : List (Ev V)) (hev : evsIdOK evs)
-    (hu : WUniq vo (St.init p0) evs) (pre : Str) (k : Key) (p : Str) (hp : '_' ∉ p) :
+    (hu : wFresh vo (St.init p0) (fun _ => true) evs = true) (pre : Str) (k : Key) (p : Str) (hp : '_' ∉ p) :
     cellVal vo (wrun vo (St.init p0) evs).disk (fileName pre p) k
       = (wLog vo pre k p0 p0 [] evs).foldl (wOwnStep vo (isLiveFileOf p (fileName pre p)) p) (vo.zero, vo.zero) :=
-  wrun_cell vo pre k p hp evs (St.init p0) (inv_init vo p0) ⟨hp0, hp0⟩ hev hu
+  wrun_cell_fresh vo pre k p hp evs (St.init p0) _ (bound_init p0) (freshInv_init vo p0 _) ⟨hp0, hp0⟩ hev hu
 
 /-- **reuse_continues** (`_partial` as above): when a new worker is spawned — with a fresh or a REUSED pid, after a
     `mark_process_dead` or not — every entry evolves from what the directory holds at that moment by the new worker's
     own updates; nothing is reset by the restart itself. -/
 theorem reuse_continues_partial (vo : VOps V) (p0 : Str) (hp0 : '_' ∉ p0) (a b : List (Ev V)) (q : Str)
-    (hev : evsIdOK (a ++ Ev.spawn q :: b)) (hu : WUniq vo (St.init p0) (a ++ Ev.spawn q :: b))
+    (hev : evsIdOK (a ++ Ev.spawn q :: b)) (hu : wFresh vo (St.init p0) (fun _ => true) (a ++ Ev.spawn q :: b) = true)
     (pre : Str) (k : Key) (p : Str) (hp : '_' ∉ p) :
     cellVal vo (wrun vo (St.init p0) (a ++ Ev.spawn q :: b)).disk (fileName pre p) k
       = (wLog vo pre k q q [] b).foldl (wOwnStep vo (isLiveFileOf p (fileName pre p)) p)
           (cellVal vo (wrun vo (St.init p0) a).disk (fileName pre p) k) := by
   rw [wrun_append, wrun_cons]
-  have hua := wuniq_append vo a (Ev.spawn q :: b) (St.init p0) hu
   have heva : evsIdOK a := fun e he => hev e (List.mem_append_left _ he)
   have hevb : evsIdOK b := fun e he => hev e (List.mem_append_right _ (List.mem_cons_of_mem _ he))
   have hq : '_' ∉ q := hev (Ev.spawn q) (List.mem_append_right _ List.mem_cons_self)
-  have hinv := wrun_inv vo a (St.init p0) (inv_init vo p0) ⟨hp0, hp0⟩ heva hua.1
-  have hs : Inv vo (wstep vo (wrun vo (St.init p0) a) (Ev.spawn q)).1 :=
-    wstep_inv vo _ _ hinv.1 hinv.2 hq hua.2.1
-  exact wrun_cell vo pre k p hp b _ hs ⟨hq, hq⟩ hevb hua.2.2
+  have hba := wrun_bound vo a (St.init p0) (bound_init p0) ⟨hp0, hp0⟩ heva
+  have hfb := wFresh_append_spawn vo a b q (St.init p0) _ hu
+  exact wrun_cell_fresh vo pre k p hp b _ (fun _ => true)
+    (wstep_bound vo _ (Ev.spawn q) hba.1 hba.2 hq) (fun i v hv _ => by simp [wstep] at hv) ⟨hq, hq⟩ hevb hfb
 
 /-- **conservation_world** (`_partial` as above): for a series whose file is NOT a live-gauge file (every counter,
     summary and histogram series; non-live gauges), the sum over all identities' files equals the sum of all
@@ -194,7 +196,8 @@ theorem reuse_continues_partial (vo : VOps V) (p0 : Str) (hp0 : '_' ∉ p0) (a b
     commutative monoid, provided the series is only incremented. -/
 theorem conservation_world_partial (vo : VOps V) (hcomm : ∀ a b, vo.add a b = vo.add b a)
     (hassoc : ∀ a b c, vo.add (vo.add a b) c = vo.add a (vo.add b c)) (hzero : ∀ a, vo.add vo.zero a = a)
-    (p0 : Str) (hp0 : '_' ∉ p0) (evs : List (Ev V)) (hev : evsIdOK evs) (hu : WUniq vo (St.init p0) evs)
+    (p0 : Str) (hp0 : '_' ∉ p0) (evs : List (Ev V)) (hev : evsIdOK evs)
+    (hu : wFresh vo (St.init p0) (fun _ => true) evs = true)
     (pre : Str) (k : Key) (pids : List Str) (hnd : pids.Nodup) (hpids : ∀ p ∈ pids, '_' ∉ p)
     (hlive : ∀ p ∈ pids, isLiveFileOf p (fileName pre p) = false)
     (hinc : ∀ u ∈ wUpds (wLog vo pre k p0 p0 [] evs), ∃ q a, u = Upd.inc q a ∧ q ∈ pids) :
@@ -301,7 +304,7 @@ theorem demoWorld_ids : evsIdOK demoWorld := by
   rcases he with h | h | h | h | h | h | h | h | h | h | h | h | h | h <;> subst h <;>
     first | trivial | (show '_' ∉ _; decide)
 
-theorem demoWorld_uniq : WUniq intOps (St.init "5".toList) demoWorld := wUniqB_sound intOps _ _ (by decide)
+theorem demoWorld_uniq : wFresh intOps (St.init "5".toList) (fun _ => true) demoWorld = true := by decide
 
 /-- presence on this history: identity 5 has its counter entry; identity 7 (never acting) has none; the live gauge entry of
     5 exists again only because the new worker re-created it after the death -/
@@ -338,6 +341,23 @@ example : aggSum intOps (["1".toList, "11".toList].map (fun p =>
   decide
 /-- … whereas the lossy history below violates it (index 0 is updated after index 1 was constructed on the same key) -/
 example : opsOKB (V := Int) [] [.construct pCounter, .construct pCounter, .inc 0 1, .inc 1 1, .inc 0 1] = false := by decide
+
+/-- a KEPT old handle used again after an identity change (index 0 = old child, index 1 = re-created child on the same key):
+    within each identity epoch only one of the two is updated, so every increment goes through a fresh object
+    (`wFresh`) although index 0 is not the youngest (`OpsOK` fails) — and nothing is lost: 1 + 2 + 4 + 8 = 15 -/
+def staleHandleWorld : List (Ev Int) :=
+  [.op (.construct pCounter), .op (.inc 0 1), .op (.construct pCounter), .op (.inc 1 2), .op (.setPid "11".toList),
+   .op (.inc 0 4), .op (.setPid "1".toList), .op (.inc 1 8)]
+
+example : wFresh intOps (St.init "1".toList) (fun _ => true) staleHandleWorld = true := by decide
+example : opsOKB (V := Int) [] [.construct pCounter, .inc 0 1, .construct pCounter, .inc 1 2, .setPid "11".toList,
+    .inc 0 4, .setPid "1".toList, .inc 1 8] = false := by decide
+example : aggSum intOps (["1".toList, "11".toList].map (fun p =>
+      (cellVal intOps (wrun intOps (St.init "1".toList) staleHandleWorld).disk (fileName "counter".toList p) (mmapKey pCounter)).1))
+    = 15 := by decide
+/-- … whereas alternating the two objects inside one epoch is not fresh (and loses an update) -/
+example : wFresh intOps (St.init "1".toList) (fun _ => true)
+    [.op (.construct pCounter), .op (.construct pCounter), .op (.inc 0 1), .op (.inc 1 1), .op (.inc 0 1)] = false := by decide
 
 /-- **the counter-example behind `OpsOK`** (M exhibits the candidate finding): two live value objects on one key, three
     increments issued, the file holds 2 -/
